@@ -2,7 +2,7 @@
 import os, sys, json, random
 from . import core, runner
 
-TIERS = {'quick': {'runs': 20000}, 'thorough': {'runs': 1500000}}
+TIERS = {'quick': {'runs': 20000}, 'thorough': {'runs': 800000}}
 CHILD_TIMEOUT = 60.0
 
 def _pristine_decode(bhex, mode):
@@ -104,32 +104,34 @@ def main(args):
     batch = runner.Batch('C10', tier, seed)
     n = args.runs or TIERS[tier]['runs']
     stop = core.EarlyStop(lambda r: r.get('status') == 'violation')
-    recs = core.parallel_runs(lambda i: one_run(i, seed), list(range(n)), progress=stop)
     total = {}
     hashes, nontrivial = set(), set()
     samples, viol, digests = [], [], []
-    steps = 0
-    skipped = 0
-    for i in sorted(recs):
-        r = recs[i]
+    agg = {'steps': 0, 'skipped': 0}
+    def consume(i, r):
         if r.get('_skipped'):
-            skipped += 1; continue
+            agg['skipped'] += 1; return
         if '_harness_error' in r:
-            batch.harness_errors.append(r['_harness_error']); continue
+            batch.harness_errors.append(r['_harness_error']); return
         if r['status'] == 'harness':
-            batch.harness_errors.append(r['reason']); continue
+            batch.harness_errors.append(r['reason']); return
         if r['status'] == 'discard':
-            batch.discard(r['reason']); continue
+            batch.discard(r['reason']); return
         digests.append([i, r['status'], r.get('class')])
         merge_stats(total, r['stats'])
-        steps += r['n']
+        agg['steps'] += r['n']
         hashes.add(r['hh'])
         if r['stats'].get('decode-ok', 0) >= 1 and (r['stats'].get('eof-fired', 0) + r['stats'].get('eio-fired', 0)) >= 1:
             nontrivial.add(r['hh'])
         if 'sample' in r:
             samples.append(r['sample'])
         if r['status'] == 'violation':
-            viol.append((i, r))
+            viol.append((i, {'class': r['class']}))
+    core.parallel_runs(lambda i: one_run(i, seed), list(range(n)), progress=stop, consume=consume)
+    digests.sort()
+    viol.sort()
+    samples.sort(key=lambda x: json.dumps(x, sort_keys=True))
+    steps, skipped = agg['steps'], agg['skipped']
     seen = set()
     for i, r in viol:
         cls = r['class']
